@@ -19,7 +19,7 @@
 From Coq Require Import List String Bool Arith Permutation Relations.
 From Verif Require Import Lib.Path Caco.Names Caco.Load Caco.LoadProofs Caco.LoadGen Gen.CacoBuild.
 From Verif Require Import Caco.LoadNames Caco.LoadNamesProofs.
-From Verif Require Import Caco.LoadOutCycle Caco.LoadSession Caco.LoadArgs Caco.LoadSessionGen.
+From Verif Require Import Caco.LoadOutCycle Caco.LoadSession Caco.LoadArgs Caco.LoadLinks Caco.LoadSessionGen.
 Import ListNotations.
 Local Open Scope string_scope.
 
@@ -313,6 +313,40 @@ Theorem C11_in_place_builds_other_rules_refuted :
     [CExec ["pkg/leaf"; "pkg/top"]; CErr [EStat "pkg/pkg/top"]].
 Proof. exact in_place_builds_other_rules_refuted. Qed.
 Print Assumptions C11_in_place_builds_other_rules_refuted.
+
+(** ** A build file that is a symbolic link (Caco/LoadLinks.v)
+
+    The build file of a package is what <p>/BUILD.caco3 RESOLVES to: a shared
+    build file linked in is read as the build file of the linking package
+    (relative names resolve against it); a dangling link or a link to a
+    directory is no build file.  Read off the source: [readBuildFile] tests
+    through [osutil.IsRegular], which is [os.Stat]. *)
+Theorem C11_build_file_follows_links : build_file_follows_linksb = true.
+Proof. exact gen_build_file_follows_links. Qed.
+Print Assumptions C11_build_file_follows_links.
+
+(** the error characterisation, over the resolved view of the build files *)
+Theorem C11_linked_build_files_error_iff : forall fs roots kind ts,
+  (exists es, run_links fs roots kind ts = CErr es /\ es <> []) <->
+  read_problem (resolve_fs (effective fs)) roots \/ graph_problem (resolve_fs (effective fs)) roots kind ts.
+Proof. exact run_links_error_iff. Qed.
+Print Assumptions C11_linked_build_files_error_iff.
+
+(** A test by [lstat] takes a linked build file for no build file: a
+    duplicate declared there is not reported and the build goes ahead ... *)
+Theorem C11_lstat_misses_errors_refuted :
+  run_links ll_dup ["p"; "q"] (fun _ => KNone) ["p/ok"] = CErr [EDup "q/twice"; EPrev] /\
+  c11_run_raw (lstat_view ll_dup) ["p"; "q"] (fun _ => KNone) ["p/ok"] = CExec ["p/ok"].
+Proof. exact lstat_misses_errors_refuted. Qed.
+Print Assumptions C11_lstat_misses_errors_refuted.
+
+(** ... and a sound graph whose rules live there is rejected. *)
+Theorem C11_lstat_rejects_linked_rules_refuted :
+  run_links ll_shared ["p"; "q"] (fun _ => KNone) ["q/shared"] = CExec ["q/leaf"; "q/shared"] /\
+  run_links ll_shared ["p"; "q"] (fun _ => KNone) ["p/shared"] = CExec ["p/leaf"; "p/shared"] /\
+  c11_run_raw (lstat_view ll_shared) ["p"; "q"] (fun _ => KNone) ["q/shared"] = CErr [EStat "q/shared"].
+Proof. exact lstat_rejects_linked_rules_refuted. Qed.
+Print Assumptions C11_lstat_rejects_linked_rules_refuted.
 
 (** ** Non-vacuity: concrete workspaces on which the statements bite. *)
 
